@@ -21,9 +21,15 @@ MODS = ("grafeo_core::storage::delta", "grafeo_core::storage::bitpack", "grafeo_
 EXCEPT = {
     ("CodecSelector::select_for_integers", "Overflow:Sub"):
         "the closure is only built under `is_sorted` (w[0] <= w[1] for every window), so w[1] - w[0] cannot underflow",
+    ("SuccinctBitVector::from_bitvec", "Overflow:Add"):
+        "u32 accumulators of bit counts: bounded by the vector's length in bits; ranks are stored as u32 by design (vectors below 2^32 bits)",
+    ("SuccinctBitVector::from_bitvec", "Overflow:Sub"):
+        "difference of a running bit count and its value at the superblock start / bits in a word minus the ones in it: "
+        "the minuend is never smaller, by construction of the loop",
     ("<RunLengthIterator as Iterator>::size_hint", "Overflow:Sub"):
         "advisory size hint; within_run never exceeds the current run's length by construction of next()",
 }
+SUCCINCT = ("grafeo_core::storage::succinct",)
 PC = "grafeo_core::graph::lpg::property::PropertyColumn"
 HOT_ONLY = {
     "iter": "documented hot-buffer iterator (iter_all covers compressed values); it has no caller outside tests",
@@ -35,15 +41,13 @@ def in_mods(f):
     return f.id.startswith(MODS) or any(("<" + m) in f.id for m in MODS)
 
 
-def run(ctx):
-    P = ctx.program()
-    E = ctx.effects()
-    # ---- R1
+def r1(ctx, P, mods, floor_fn, floor_cand):
+    """R1 over the functions of the given modules"""
     nfun = 0
     ncand = 0
     seen = {}
     for f in sorted(P.fns.values(), key=lambda f: (f.file, f.line)):
-        if not in_mods(f):
+        if not (f.id.startswith(mods) or any(("<" + m) in f.id for m in mods)):
             continue
         nfun += 1
         fx = None
@@ -70,8 +74,20 @@ def run(ctx):
             ctx.ob("R1", inst, False,
                    what="%s applies trapping `%s` to two data-dependent %s operands: encoding/decoding panics (overflow checks on) "
                         "or is only lossless by wrap-around for extreme values" % (short_id(f.id), k, tr["ty"]), where=f.loc(tr["line"]))
-    ctx.floor("R1", nfun, 150, "functions analysed in codec modules")
-    ctx.floor("R1", ncand, 2, "payload arithmetic candidates")
+    ctx.floor("R1", nfun, floor_fn, "functions analysed in %s" % (mods[-1] if len(mods) == 1 else "codec modules"))
+    ctx.floor("R1", ncand, floor_cand, "payload arithmetic candidates")
+
+
+def run(ctx):
+    P = ctx.program()
+    E = ctx.effects()
+    # ---- R1 / R5 on the codec modules of the main configuration, and on the succinct structures, which only exist
+    # under the `succinct-indexes` feature (no crate of the workspace enables it, so the main build never contains them)
+    r1(ctx, P, MODS, 150, 2)
+    r5(ctx, P, MODS, 2)
+    PS = ctx.program("succinct")
+    r1(ctx, PS, SUCCINCT, 50, 2)
+    r5(ctx, PS, SUCCINCT, 2)
     # positive control: the wrapping forms the codecs rely on are present
     enc = P.fn("DeltaEncoding::encode_signed")
     decs = P.fn("DeltaEncoding::decode_signed")
@@ -157,3 +173,108 @@ def run(ctx):
         ctx.ob("R3", "%s#layout" % ty.split("::")[-1], a == b,
                what="%s::to_bytes writes %s but from_bytes reads %s" % (ty.split("::")[-1], a, b), where=d["to_bytes"].loc())
     ctx.floor("R3", n3, 5, "codecs with to_bytes/from_bytes")
+
+
+_W = {"u8": 8, "i8": 8, "u16": 16, "i16": 16, "u32": 32, "i32": 32, "u64": 64, "i64": 64, "usize": 64, "isize": 64, "u128": 128, "i128": 128}
+_BITCOUNT = ("leading_zeros", "trailing_zeros", "count_ones", "count_zeros", "leading_ones", "trailing_ones")
+
+
+def _upper_bound(f, op, depth=0):
+    """a constant upper bound of an unsigned operand that follows from its definition alone, or None"""
+    if op[0] == "k":
+        try:
+            return int(str(op[1]))
+        except ValueError:
+            return None
+    if depth > 8 or op[0] not in ("m", "c"):
+        return None
+    pl = op[1]
+    if len(pl) == 2 and isinstance(pl[1], str) and pl[1].startswith("f:0:(tuple)"):
+        pl = pl[:1]      # first field of a checked-arithmetic tuple
+    if len(pl) != 1:
+        return None
+    ds = [d for d in f.defs().get(pl[0], []) if len(d[2]) == 1]
+    if not ds:
+        return None
+    best = 0
+    for d in ds:
+        rv = d[3]
+        b = None
+        if rv[0] == "use":
+            b = _upper_bound(f, rv[1], depth + 1)
+        elif rv[0] == "cast" and rv[1] == "IntToInt":
+            b = _upper_bound(f, rv[2], depth + 1)
+            if rv[4] in _W and not rv[4].startswith("i") and (b is None or b > 2 ** _W[rv[4]] - 1):
+                b = 2 ** _W[rv[4]] - 1        # the source type itself bounds the value
+        elif rv[0] == "bin":
+            x, y = _upper_bound(f, rv[2], depth + 1), _upper_bound(f, rv[3], depth + 1)
+            o = rv[1]
+            if o == "BitAnd":
+                b = min([v for v in (x, y) if v is not None], default=None)
+            elif o == "Rem" and y is not None and y > 0:
+                b = y - 1
+            elif o in ("Add", "AddWithOverflow") and x is not None and y is not None:
+                b = x + y
+            elif o in ("Mul", "MulWithOverflow") and x is not None and y is not None:
+                b = x * y
+            elif o in ("Sub", "SubWithOverflow", "Div", "Shr") and x is not None:
+                b = x
+            elif o in ("Eq", "Ne", "Lt", "Le", "Gt", "Ge"):
+                b = 1
+        elif rv[0] == "call":
+            nm = callee_name(rv[1]).split("::")[-1]
+            if nm in _BITCOUNT:
+                b = 128
+            elif nm == "min":
+                vs = [_upper_bound(f, a, depth + 1) for a in rv[1]["args"]]
+                b = min([v for v in vs if v is not None], default=None)
+        if b is None:
+            return None
+        best = max(best, b)
+    return best
+
+
+def r5(ctx, P, mods, floor):
+    """R5: a cast to an 8- or 16-bit integer in the codec modules keeps the value: its operand is bounded by its own
+    definition (a mask, a remainder, a bit count, a narrower source type) or by a guard that dominates the cast.
+    A count or a sum narrowed without either loses its high bits, and what is read back is not what was stored."""
+    n = 0
+    seen = {}
+    for f in sorted(P.fns.values(), key=lambda f: (f.file, f.line)):
+        if not (f.id.startswith(mods) or any(("<" + m) in f.id for m in mods)) or "::tests::" in f.id:
+            continue
+        fx = None
+        for bi, b in enumerate(f.blocks):
+            if b["cl"]:
+                continue
+            for st in b["s"]:
+                rv = st[1]
+                if not (rv[0] == "cast" and rv[1] == "IntToInt" and rv[3] in _W and rv[4] in _W and _W[rv[3]] < _W[rv[4]] and _W[rv[3]] <= 16):
+                    continue
+                if rv[2][0] == "k":
+                    continue
+                n += 1
+                root = short_id(f.parent) if f.kind == "closure" else short_id(f.id)
+                key = (root, "%s->%s" % (rv[4], rv[3]))
+                k = seen[key] = seen.get(key, 0) + 1
+                limit = 2 ** (_W[rv[3]] - (1 if rv[3].startswith("i") else 0)) - 1
+                ub = _upper_bound(f, rv[2])
+                ok = ub is not None and ub <= limit
+                if not ok:
+                    fx = fx or FlowCx(P, f)
+                    vt = fx.tags(rv[2])
+
+                    def bounded(fact):
+                        if fact[0] != "cmp":
+                            return False
+                        _, op, a, c, _blk = fact
+                        for x, y, o in ((a, c, op), (c, a, {"Lt": "Gt", "Gt": "Lt", "Le": "Ge", "Ge": "Le"}.get(op, op))):
+                            if x == vt and o in ("Lt", "Le") and y and all(t.startswith("const:") and t[6:].lstrip("-").isdigit() and int(t[6:]) <= limit + (1 if o == "Lt" else 0) for t in y):
+                                return True
+                        return False
+                    ok = fx.every_path_has(bi, bounded)
+                ctx.ob("R5", "%s#%s[%d]" % (root, key[1], k), ok,
+                       what="%s narrows a %s to %s without a bound on the value (no mask, remainder, bit count or dominating range "
+                            "check): values above %d lose their high bits, so what is read back differs from what was stored"
+                            % (short_id(f.id), rv[4], rv[3], limit), where=f.loc(st[2]))
+    ctx.floor("R5", n, floor, "narrowing casts to 8/16-bit integers in %s" % (mods[-1] if len(mods) == 1 else "codec modules"))
